@@ -184,6 +184,8 @@ func c04ReadNextBlock(fs *Facts, f *File) {
 		fs.Tri("shortHeaderIsEOF", Unknown, c01Reader)
 		fs.Tri("boundsCompressedSize", Unknown, c01Reader)
 		fs.Tri("shortPayloadIsEOF", Unknown, c01Reader)
+		fs.Tri("zeroSizeIsEOF", Unknown, c01Reader)
+		fs.Tri("zeroTailIsEOF", Unknown, c01Reader)
 		return
 	}
 	fd := f.Func("FileReader", "readNextBlock")
@@ -258,4 +260,61 @@ func c04ReadNextBlock(fs *Facts, f *File) {
 	} else {
 		fs.Tri("boundsCompressedSize", TriOf(bound), where)
 	}
+	c04ZeroRules(fs, f, fd, mk, where)
+}
+
+// c04ZeroRules reads the two end-of-data rules for a zero-filled tail.
+//
+//	zeroSizeIsEOF  yes = `if blockHeader.CompressedSize == 0 { return nil, io.EOF }` as a statement of the
+//	               function body before the payload buffer is made; no = the function never compares
+//	               CompressedSize with 0; anything else unknown.
+//	zeroTailIsEOF  yes = the `if err != nil` that follows `block, err := ParseBlock(blockHeader, compressedData)`
+//	               starts with `if fr.zeroFilledTail(compressedData) { return nil, io.EOF }` and zeroFilledTail is
+//	               the function the model describes (last payload byte 0, every byte up to io.EOF is 0);
+//	               no = readNextBlock does not mention zeroFilledTail; anything else unknown.
+func c04ZeroRules(fs *Facts, f *File, fd *ast.FuncDecl, mk *ast.CallExpr, where string) {
+	body := c29Norm(f, fd.Body)
+	zs := Unknown
+	switch {
+	case !strings.Contains(body, "CompressedSize==0") && !strings.Contains(body, "0==blockHeader.CompressedSize") &&
+		!strings.Contains(body, "CompressedSize<1") && !strings.Contains(body, "CompressedSize<=0"):
+		zs = No
+	default:
+		for _, st := range fd.Body.List {
+			is, ok := st.(*ast.IfStmt)
+			if ok && is.Init == nil && is.Else == nil && mk != nil && is.Pos() < mk.Pos() &&
+				c29Norm(f, is.Cond) == "blockHeader.CompressedSize==0" && c29Norm(f, is.Body) == "{returnnil,io.EOF}" {
+				zs = Yes
+			}
+		}
+	}
+	fs.Tri("zeroSizeIsEOF", zs, where)
+
+	zt := Unknown
+	const want = "{iflen(payload)==0||payload[len(payload)-1]!=0{returnfalse}buf:=make([]byte,64*1024)" +
+		"for{n,err:=fr.file.Read(buf)for_,b:=rangebuf[:n]{ifb!=0{returnfalse}}iferr!=nil{returnerrors.Is(err,io.EOF)}}}"
+	switch {
+	case !strings.Contains(body, "zeroFilledTail"):
+		zt = No
+	default:
+		zf := f.Func("FileReader", "zeroFilledTail")
+		site := false
+		for i, st := range fd.Body.List {
+			as, ok := st.(*ast.AssignStmt)
+			if !ok || c29Norm(f, as) != "block,err:=ParseBlock(blockHeader,compressedData)" || i+1 >= len(fd.Body.List) {
+				continue
+			}
+			is, ok := fd.Body.List[i+1].(*ast.IfStmt)
+			if ok && is.Init == nil && c29Norm(f, is.Cond) == "err!=nil" &&
+				c29Norm(f, is.Body) == "{iffr.zeroFilledTail(compressedData){returnnil,io.EOF}returnnil,err}" {
+				site = true
+			}
+		}
+		if site && zf != nil && len(zf.Type.Params.List) == 1 && len(zf.Type.Params.List[0].Names) == 1 &&
+			zf.Type.Params.List[0].Names[0].Name == "payload" && c29Norm(f, zf.Type.Params.List[0].Type) == "[]byte" &&
+			c29Norm(f, zf.Body) == want {
+			zt = Yes
+		}
+	}
+	fs.Tri("zeroTailIsEOF", zt, where)
 }
